@@ -226,6 +226,16 @@ def check(ctx):
         for st in bc.stmts(b):
             if st[0] == "A" and st[2][0] == "Agg" and st[2][1][0] == "Adt" and st[2][1][1].endswith("ops::Range"):
                 rng = [strip_casts(dc.expr(o)) for o in st[2][2]]
+    if rng is None:
+        # hand-written index loop: `let mut i = 0; while i < MAX_STREAMS { ..push(stream); i += 1 }`
+        for h_, bl_ in bc.loops.items():
+            for (x_, y_) in bc.loop_exits(h_):
+                c_ = D.cmp_of_switch(bc, dc, x_)
+                cb_ = D.canon_branch(c_) if c_ else None
+                if cb_ and cb_[0] == "lt" and cb_[4] == y_ and "MAX_STREAMS" in show(cb_[2]):
+                    ph_ = strip_casts(cb_[1])
+                    if ph_[0] == "phi" and any(strip_casts(a_) == ("const", 0) for a_ in (ph_[3] if len(ph_) > 3 else ())): rng = [("const", 0), strip_casts(cb_[2])]
+                    elif ph_[0] == "call" and ph_[1].split("::")[-1] == "len": rng = [("const", 0), strip_casts(cb_[2])]      # `while streams.len() < MAX_STREAMS { streams.push(..) }`
     streams_const = rng[1] if rng else None
     ctx.ob("R12.3", f"{kc}|creates-MAX_STREAMS-streams", rng is not None and rng[0] == ("const", 0) and "MAX_STREAMS" in show(rng[1]), f"{bc.f['file']}:{bc.f['line']}", f"creates streams over range {[show(x) for x in rng] if rng else None}")
     spawners = [k for k in fx.by_key if k.startswith("uni::uni::Uni as uni::uni::GenericUni::spawn") and "{closure" not in k]
@@ -243,13 +253,22 @@ def check(ctx):
         # the per-pair closure spawns one executor and wires the close callback
         fe = [(b, c) for (b, c) in body.calls if c.get("fname") == "for_each" and "Iterator" in (c.get("f") or "")]
         okp = len(fe) == 1 and "zip" in show(dg.expr(fe[0][1]["args"][0])) and "consumer_stream_internal" in show(dg.expr(fe[0][1]["args"][0])) and not util.in_loop(body, fe[0][0])
+        if not okp:
+            # `for (executor, stream) in executors.zip(streams) { .. }`: the loop's iterator is the same zip
+            nx = [(b, c) for (b, c) in body.calls if c.get("fname") == "next" and "::zip" in str(dg.expr(c["args"][0])) and "consumer_stream_internal" in str(dg.expr(c["args"][0]))]
+            okp = len(nx) == 1 and util.in_loop(body, nx[0][0])
         ctx.ob("R12.3", f"{k}|one-executor-per-stream", okp, site, "executors are spawned by iterating stream_executors zipped with the created streams (one executor per stream)")
         if okp:
-            clk = _closure_arg_keys(body, dg, fe[0][1])
+            loop_form = not (len(fe) == 1 and "zip" in show(dg.expr(fe[0][1]["args"][0])))
+            clk = [k] if loop_form else _closure_arg_keys(body, dg, fe[0][1])
             if clk:
-                cb_ = Body(fx.fn(clk[0])); cd = D.Dag(cb_)
+                cb_ = body if loop_form else Body(fx.fn(clk[0])); cd = dg if loop_form else D.Dag(cb_)
                 sp = [(b, c) for (b, c) in cb_.calls if (c.get("fname") or "").startswith("spawn_") and EXE in (c.get("f") or "")]
-                ok1 = len(sp) == 1 and not util.in_loop(cb_, sp[0][0])
+                if loop_form:
+                    hs_ = [h for h, bl in cb_.loops.items() if sp and sp[0][0] in bl]
+                    ok1 = len(sp) == 1 and bool(hs_) and util.count_per_iteration(cb_, hs_[0], lambda b: b == sp[0][0]) == (1, 1)
+                else:
+                    ok1 = len(sp) == 1 and not util.in_loop(cb_, sp[0][0])
                 ctx.ob("R12.3", f"{clk[0]}|spawns-once", ok1, f"{cb_.f['file']}:{cb_.f['line']}", "one executor spawned per (executor, stream) pair")
                 if ok1:
                     # the close-callback closure -> coroutine: fetch_add(finished_executors_count) then on_close_callback(executor).await
